@@ -209,7 +209,17 @@ def playback(repo, package, harness, timeout=1500):
                 'replay_output': out2[-4000:], 'replay_cmd': ' '.join(cmd2)}
 
 
+def warm(repo='/repo'):
+    """compile every package that has harnesses once (dependencies are the slow part)"""
+    for pkg, h in (('mls-rs', 'tree_kem::math::verif_kani::c20_root'), ('mls-rs-codec', 'verif_kani::c12_varint_roundtrip')):
+        r = run(repo, pkg, [h], jobs=2, timeout=3000)
+        print('warm', pkg, 'build_ok' if r['build_ok'] else 'BUILD FAILED', round(r['wall_s']), 's')
+
+
 if __name__ == '__main__':
+    if sys.argv[1] == '--warm':
+        warm()
+        sys.exit(0)
     pkg = sys.argv[1]
     hs = sys.argv[2:]
     r = run('/repo', pkg, hs, exact=False)
